@@ -77,12 +77,14 @@ type world struct {
 	past     [][]string
 	panicked []string // a serve / Shutdown call panicked (recovered by the harness)
 
-	outside     bool        // this life: the listener / PacketConn was closed from outside
-	pastOutside []bool      // ... of the lives that are over
-	pastLeft    [][]string  // what was left open when each of them was over
-	failSeq     int         // ids of the failing start calls of this life: 50, 51, ...
-	viols       [][2]string // direct-oracle failures found while the plan ran (key, what); reported by judge
-	abort       bool        // the rest of the plan makes no sense any more
+	hijackNext  map[int]string // the next handler on connection c hijacks it ("ret": and returns; "stay": and keeps running)
+	wrap        bool           // TLS-style listener: Accept returns a wrapper around the connection
+	outside     bool           // this life: the listener / PacketConn was closed from outside
+	pastOutside []bool         // ... of the lives that are over
+	pastLeft    [][]string     // what was left open when each of them was over
+	failSeq     int            // ids of the failing start calls of this life: 50, 51, ...
+	viols       [][2]string    // direct-oracle failures found while the plan ran (key, what); reported by judge
+	abort       bool           // the rest of the plan makes no sense any more
 }
 
 func (w *world) addViol(key, what string) {
@@ -375,7 +377,7 @@ func (w *world) unhold(id int) {
 
 func newWorld(mode string) *world {
 	w := &world{mode: mode, conns: map[int]*fakeConn{}, gates: map[int]chan struct{}{}, cancels: map[int]context.CancelFunc{}, replies: map[int]int{},
-		winArmed: map[int]bool{}, winEntered: map[int]chan struct{}{}, winRelease: map[int]chan struct{}{}, holds: map[string]*holdPoint{}}
+		winArmed: map[int]bool{}, winEntered: map[int]chan struct{}{}, winRelease: map[int]chan struct{}{}, holds: map[string]*holdPoint{}, hijackNext: map[int]string{}}
 	w.cond = sync.NewCond(&w.mu)
 	w.srv = &dns.Server{Handler: dns.HandlerFunc(w.handler), NotifyStartedFunc: func() { w.log("n") }}
 	w.srv.DecorateReader = func(r dns.Reader) dns.Reader { return windowReader{w, r} }
@@ -403,6 +405,7 @@ func (w *world) newTransport() {
 // returned, no goroutine of it remains); its log is archived, the same Server value gets a
 // new listener / PacketConn and the per-life bookkeeping of the harness starts afresh.
 func (w *world) newLife(name string, base int, plan []string) bool {
+	w.hijackWrapUp()
 	if !w.callersReturned() {
 		return false
 	}
@@ -413,6 +416,8 @@ func (w *world) newLife(name string, base int, plan []string) bool {
 	w.pastOutside = append(w.pastOutside, w.outside)
 	w.pastLeft = append(w.pastLeft, left)
 	w.outside = false
+	w.wrap = false
+	w.hijackNext = map[int]string{}
 	w.ev = nil
 	w.conns = map[int]*fakeConn{}
 	w.gates = map[int]chan struct{}{}
@@ -508,6 +513,11 @@ func (w *world) handler(rw dns.ResponseWriter, req *dns.Msg) {
 	if a, ok := rw.RemoteAddr().(idAddr); ok {
 		id = a.id
 	}
+	w.mu.Lock()
+	hj := w.hijackNext[id]
+	delete(w.hijackNext, id)
+	fc := w.conns[id]
+	w.mu.Unlock()
 	w.log(fmt.Sprintf("he.%d", id))
 	<-w.gate(id)
 	if !w.noReply {
@@ -515,7 +525,25 @@ func (w *world) handler(rw dns.ResponseWriter, req *dns.Msg) {
 		m.SetReply(req)
 		rw.WriteMsg(m)
 	}
-	w.log(fmt.Sprintf("hx.%d", id))
+	if hj == "" {
+		w.log(fmt.Sprintf("hx.%d", id))
+		return
+	}
+	// the handler takes the connection over
+	rw.Hijack()
+	if w.mode != "tcp" || fc == nil {
+		// Hijack means nothing for a PacketConn server: an ordinary handler exit
+		w.log(fmt.Sprintf("hx.%d", id))
+		return
+	}
+	fc.mu.Lock()
+	fc.hijacked = true
+	fc.cond.Broadcast()
+	fc.mu.Unlock()
+	if hj == "stay" {
+		<-w.gate(1000 + id) // the handler itself goes on using the hijacked connection
+	}
+	w.log(fmt.Sprintf("hj.%d", id))
 }
 
 // ---------------------------------------------------------------- fake listener / conn
@@ -583,7 +611,14 @@ func (l *fakeListener) Accept() (net.Conn, error) {
 		l.mu.Unlock()
 		// Accept has taken the connection; it may return it after the listener was closed
 		l.w.holdAt(fmt.Sprintf("ac.%d", c.id), false, l.w.shutdownSeen)
-		return c, nil
+		c.mu.Lock()
+		c.asServer = c
+		if l.w.wrap {
+			c.asServer = &wrapConn{c}
+		}
+		sc := c.asServer
+		c.mu.Unlock()
+		return sc, nil
 	}
 }
 
@@ -617,6 +652,74 @@ type fakeConn struct {
 	eof     bool // client closed its side
 	closed  bool // server closed
 	out     [][]byte
+
+	asServer         net.Conn // what Accept returned (the connection itself or a wrapper)
+	hijacked         bool     // a handler called Hijack() on it
+	owned            bool     // ... has returned, and the server no longer tracks it: the owner's
+	ownerClosed      bool
+	touched          []string // net.Conn calls by the server while owned
+	touchedInHandler []string // ... between Hijack() and the return of the hijacking handler
+	ownerReads       []string // results of the owner's reads
+	ownerPending     int
+}
+
+// wrapConn: what a TLS-style listener hands to the server: a wrapper around the connection
+type wrapConn struct{ net.Conn }
+
+// touch: the server (not the owner) calls a net.Conn method.  Once a handler has hijacked the
+// connection, has returned and the server has deregistered it (owned), the server has no business
+// with it any more; while the hijacking handler is still running it is only counted.
+func (c *fakeConn) touch(what string) {
+	c.mu.Lock()
+	switch {
+	case c.owned:
+		c.touched = append(c.touched, what)
+	case c.hijacked:
+		c.touchedInHandler = append(c.touchedInHandler, what)
+	}
+	c.mu.Unlock()
+}
+
+// ---- the owner of a hijacked connection (the harness) uses it through these
+func (c *fakeConn) ownerRead() string {
+	c.mu.Lock()
+	defer c.mu.Unlock()
+	for {
+		switch {
+		case c.closed:
+			return "closed"
+		case c.dlPast:
+			return "timeout"
+		case len(c.in) > 0:
+			c.in, c.msgEnd = nil, nil
+			return "data"
+		case c.eof:
+			return "eof"
+		}
+		c.cond.Wait()
+	}
+}
+func (c *fakeConn) ownerWrite() bool {
+	c.mu.Lock()
+	defer c.mu.Unlock()
+	if c.closed {
+		return false
+	}
+	c.out = append(c.out, []byte("owner"))
+	return true
+}
+func (c *fakeConn) ownerClose() {
+	c.mu.Lock()
+	c.closed, c.ownerClosed = true, true
+	c.cond.Broadcast()
+	c.mu.Unlock()
+}
+func (c *fakeConn) sendRaw() {
+	c.mu.Lock()
+	c.in = append(c.in, 'o', 'k')
+	c.msgEnd = append(c.msgEnd, 2)
+	c.cond.Broadcast()
+	c.mu.Unlock()
 }
 
 func (w *world) newConn(id int) *fakeConn {
@@ -642,6 +745,7 @@ func (c *fakeConn) CloseClient() {
 	c.mu.Unlock()
 }
 func (c *fakeConn) Read(p []byte) (int, error) {
+	c.touch("Read")
 	c.mu.Lock()
 	defer c.mu.Unlock()
 	for {
@@ -677,6 +781,7 @@ func (c *fakeConn) Read(p []byte) (int, error) {
 	}
 }
 func (c *fakeConn) Write(p []byte) (int, error) {
+	c.touch("Write")
 	c.mu.Lock()
 	if c.closed {
 		c.mu.Unlock()
@@ -688,6 +793,7 @@ func (c *fakeConn) Write(p []byte) (int, error) {
 	return len(p), nil
 }
 func (c *fakeConn) Close() error {
+	c.touch("Close")
 	c.w.holdAt(fmt.Sprintf("cl.%d", c.id), false, c.w.shutdownSeen)
 	c.mu.Lock()
 	already := c.closed
@@ -711,6 +817,7 @@ func (c *fakeConn) seenPast() bool {
 	return c.sawPast
 }
 func (c *fakeConn) SetReadDeadline(t time.Time) error {
+	c.touch("SetReadDeadline")
 	if !t.IsZero() && !t.Before(time.Now()) {
 		// arming a future deadline: the step readTCP must not let Shutdown's deadline be overridden at
 		c.w.holdAt(fmt.Sprintf("dl.%d", c.id), true, c.seenPast)
@@ -724,7 +831,7 @@ func (c *fakeConn) SetReadDeadline(t time.Time) error {
 	c.mu.Unlock()
 	return nil
 }
-func (c *fakeConn) SetWriteDeadline(t time.Time) error { return nil }
+func (c *fakeConn) SetWriteDeadline(t time.Time) error { c.touch("SetWriteDeadline"); return nil }
 
 // ---------------------------------------------------------------- fake PacketConn (generic, not *net.UDPConn)
 type pkt struct {
@@ -996,7 +1103,7 @@ func (w *world) openAccepted() []int {
 			fmt.Sscanf(e[3:], "%d", &c)
 			if fc := w.conns[c]; fc != nil {
 				fc.mu.Lock()
-				open := !fc.closed
+				open := !fc.closed && !fc.hijacked // (a hijacked connection is its owner's)
 				fc.mu.Unlock()
 				if open {
 					out = append(out, c)
@@ -1033,8 +1140,124 @@ func (w *world) leftover() []string {
 	for _, c := range w.openAccepted() {
 		out = append(out, fmt.Sprintf("connection %d", c))
 	}
+	if n := w.srv.VerifTrackedConns(); n > 0 {
+		out = append(out, fmt.Sprintf("%d connection(s) still in the server's connection tracking (srv.conns)", n))
+	}
 	return out
 }
+
+// hijackWrapUp: the verdicts on the hijacked connections of this life; then their owner closes them
+func (w *world) hijackWrapUp() {
+	w.mu.Lock()
+	var hjs []*fakeConn
+	for _, fc := range w.conns {
+		hjs = append(hjs, fc)
+	}
+	w.mu.Unlock()
+	sort.Slice(hjs, func(i, j int) bool { return hjs[i].id < hjs[j].id })
+	for _, fc := range hjs {
+		fc.mu.Lock()
+		touched, inH, reads, ownerClosed, hijacked := fc.touched, fc.touchedInHandler, fc.ownerReads, fc.ownerClosed, fc.hijacked
+		fc.mu.Unlock()
+		if len(touched) > 0 {
+			w.addViol("C13/hijacked-connection-touched", fmt.Sprintf("after the handler had hijacked connection %d and returned, the server still called %s on it", fc.id, strings.Join(touched, ", ")))
+		}
+		for _, r := range reads {
+			if r == "timeout" || (r == "closed" && !ownerClosed) {
+				w.addViol("C13/hijacked-connection-touched", fmt.Sprintf("the owner's read on hijacked connection %d failed with %s: the server set a deadline on / closed a connection that is not its own", fc.id, r))
+			}
+		}
+		if hijacked {
+			st["hijacked_connections_checked"]++
+			if len(inH) > 0 {
+				st["hijacked_conn_touched_while_its_handler_still_ran"]++
+			}
+			fc.ownerClose()
+		}
+	}
+}
+
+// takeOver: the handler that hijacked connection c has returned.  The server must stop tracking
+// the connection (bounded wait; then the owner clears the deadline the server may have set while
+// the connection was still its own, and from now on every net.Conn call of the server on it counts).
+func (w *world) takeOver(c int) {
+	w.waitFor(fmt.Sprintf("hj.%d", c), 1)
+	w.mu.Lock()
+	fc := w.conns[c]
+	w.mu.Unlock()
+	if fc == nil || w.stuck != "" {
+		return
+	}
+	fc.mu.Lock()
+	sc := fc.asServer
+	fc.mu.Unlock()
+	d := time.Now().Add(waitLong)
+	for w.srv.VerifTracksConn(sc) {
+		if time.Now().After(d) {
+			w.addViol("C13/hijacked-connection-still-tracked", fmt.Sprintf("the handler hijacked connection %d and returned, but the server keeps it in its connection tracking (srv.conns): Shutdown will set its read deadline, and it is never released", c))
+			break
+		}
+		time.Sleep(200 * time.Microsecond)
+	}
+	fc.mu.Lock()
+	fc.dlPast = false
+	fc.owned = true
+	fc.mu.Unlock()
+	st["hijacked_connections_taken_over"]++
+}
+func (w *world) ownerReadStart(c int) {
+	w.mu.Lock()
+	fc := w.conns[c]
+	w.mu.Unlock()
+	if fc == nil {
+		return
+	}
+	fc.mu.Lock()
+	fc.ownerPending++
+	fc.mu.Unlock()
+	w.hw.Add(1)
+	go func() {
+		defer w.hw.Done()
+		r := fc.ownerRead()
+		fc.mu.Lock()
+		fc.ownerReads = append(fc.ownerReads, r)
+		fc.ownerPending--
+		fc.cond.Broadcast()
+		fc.mu.Unlock()
+		w.mu.Lock()
+		w.cond.Broadcast()
+		w.mu.Unlock()
+	}()
+}
+
+// ownerGets: the client sends two octets on the hijacked connection; the owner's pending read
+// must receive them (not a timeout from a deadline the server set, not a close by the server)
+func (w *world) ownerGets(c int) {
+	w.mu.Lock()
+	fc := w.conns[c]
+	w.mu.Unlock()
+	if fc == nil {
+		return
+	}
+	fc.sendRaw()
+	d := time.Now().Add(waitLong)
+	for {
+		fc.mu.Lock()
+		pending := fc.ownerPending
+		fc.mu.Unlock()
+		if pending == 0 {
+			return
+		}
+		if time.Now().After(d) {
+			if w.stuck == "" {
+				w.stuck = fmt.Sprintf("the owner's read on hijacked connection %d did not return", c)
+			}
+			return
+		}
+		time.Sleep(200 * time.Microsecond)
+	}
+}
+
 func (w *world) cancel(j int) {
 	w.log(fmt.Sprintf("dc.%d", j))
 	w.mu.Lock()
@@ -1144,7 +1367,7 @@ func (w *world) judgeLife(name string, plan []string, fatalInjected bool, life, 
 				if strings.HasPrefix(x, "he.") {
 					open[x[3:]]++
 				}
-				if strings.HasPrefix(x, "hx.") {
+				if strings.HasPrefix(x, "hx.") || strings.HasPrefix(x, "hj.") {
 					open[x[3:]]--
 				}
 			}
@@ -1202,7 +1425,7 @@ func (w *world) judgeLife(name string, plan []string, fatalInjected bool, life, 
 	// every accepted connection is closed by the server once serve has returned
 	if idx(ev, "sr.0") >= 0 {
 		for _, e := range ev {
-			if strings.HasPrefix(e, "ao.") && idx(ev, "wc."+e[3:]) < 0 {
+			if strings.HasPrefix(e, "ao.") && idx(ev, "wc."+e[3:]) < 0 && idx(ev, "hj."+e[3:]) < 0 {
 				Viol("C13/connection-not-closed", "connection "+e[3:]+" was still open when the serve call returned", in)
 			}
 		}
@@ -1264,6 +1487,12 @@ func (w *world) goroutinesBack(name string, base int, plan []string) {
 //	     blocked on srv.lock)           G<key> wait until a thread is there   L<key> let it go
 //	t    a temporary error of the other flavour (Timeout() true on tcp, false on udp)
 //	f    inject a NON-temporary Accept / ReadFrom error   O    close the listener / PacketConn from outside
+//	J<c> the next handler on connection c replies, calls Hijack() and returns (j<c>: and keeps running
+//	     until g<c>)   h<c> wait until it has called Hijack()   r<c> release a handler without waiting
+//	Y<c> the owner takes the hijacked connection over once the handler has returned (the server must
+//	     no longer track it)   o<c> the owner starts a blocking read   i<c> the client sends two octets:
+//	     the owner's read must get them   u<c> the owner writes   y<c> the owner closes
+//	A    TLS-style listener: Accept returns wrappers around the connections from now on
 //	F<k> a start call that must fail by itself (kind k, see failStart), the server not serving
 //	E<j> Shutdown call j on the server while it is not started: must return the not-started error at once
 //	N    the life of the Server value is over (all calls returned, no goroutine left): the SAME
@@ -1359,7 +1588,64 @@ func runPlan(mode, name string, plan []string, attempt int) bool {
 			w.release(a)
 			released[a]++
 			if entered[a] >= released[a] {
-				w.waitFor(fmt.Sprintf("hx.%d", a), released[a])
+				// the handler returns (hx), or returns having hijacked the connection (hj)
+				d := time.Now().Add(waitLong)
+				for {
+					w.mu.Lock()
+					n := w.count(fmt.Sprintf("hx.%d", a)) + w.count(fmt.Sprintf("hj.%d", a))
+					w.mu.Unlock()
+					if n >= released[a] {
+						break
+					}
+					if time.Now().After(d) {
+						w.waitFor(fmt.Sprintf("hx.%d", a), released[a])
+						break
+					}
+					time.Sleep(200 * time.Microsecond)
+				}
+			}
+		case 'r':
+			w.release(a) // without waiting for the handler to return
+			released[a]++
+		case 'A':
+			w.wrap = true
+		case 'J', 'j':
+			w.mu.Lock()
+			w.hijackNext[a] = map[byte]string{'J': "ret", 'j': "stay"}[op[0]]
+			w.mu.Unlock()
+		case 'h':
+			// wait until the handler on connection a has called Hijack()
+			if fc := w.conns[a]; fc != nil {
+				d := time.Now().Add(waitLong)
+				for {
+					fc.mu.Lock()
+					hj := fc.hijacked
+					fc.mu.Unlock()
+					if hj {
+						break
+					}
+					if time.Now().After(d) {
+						w.stuck = "the handler did not call Hijack"
+						break
+					}
+					time.Sleep(200 * time.Microsecond)
+				}
+			}
+		case 'g':
+			w.gate(1000 + a) <- struct{}{}
+		case 'Y':
+			w.takeOver(a)
+		case 'o':
+			w.ownerReadStart(a)
+		case 'i':
+			w.ownerGets(a)
+		case 'u':
+			if fc := w.conns[a]; fc != nil {
+				fc.ownerWrite()
+			}
+		case 'y':
+			if fc := w.conns[a]; fc != nil {
+				fc.ownerClose()
 			}
 		case 'X':
 			if fc := w.conns[a]; fc != nil {
@@ -1474,8 +1760,10 @@ func runPlan(mode, name string, plan []string, attempt int) bool {
 	for id := range reqCount {
 		for i := 0; i < 4; i++ {
 			w.release(id)
+			w.gate(1000 + id) <- struct{}{}
 		}
 	}
+	w.hijackWrapUp()
 	if w.stuck == "" {
 		w.settle(name, base, plan)
 	}
@@ -1797,6 +2085,15 @@ func runC13(r *Rng, tier string, n int) {
 			st["family_self_end"]++
 		}
 	}
+	// ---- L. handlers that Hijack() their connection and go on using it (plain and TLS-style wrapped
+	//         connections; on a PacketConn server Hijack changes nothing), before / during / after
+	//         Shutdown, closing it or not, next to ordinary requests on other connections
+	for _, mode := range []string{"tcp", "udp"} {
+		for _, hc := range hijackCases(mode) {
+			runPlan(mode, "hijack-"+hc.name, hc.plan, 0)
+			st["family_hijack"]++
+		}
+	}
 	// ---- D. real sockets: the same oracles, no model case; every Server value lives twice
 	for i := 0; i < 6; i++ {
 		realRun("udp", 1+i%3, i >= 3)
@@ -1886,6 +2183,51 @@ func holdCases(mode string) []holdCase {
 				out = append(out, holdCase{nm, plan})
 			}
 		}
+	}
+	return out
+}
+
+// hijackCases: see family L in runC13
+func hijackCases(mode string) []holdCase {
+	if mode == "udp" {
+		return []holdCase{
+			{"udp-before-shutdown", []string{"S0", "J1", "Q1", "R1", "Q2", "D0", "R2", "Wdr.0.0", "Wsr.0"}},
+			{"udp-during-shutdown", []string{"S0", "J1", "Q1", "D0", "R1", "Wdr.0.0", "Wsr.0"}},
+			{"udp-ctx", []string{"S0", "J1", "Q1", "K0", "k0", "R1", "Wsr.0"}},
+		}
+	}
+	base := []holdCase{
+		// hijacked before Shutdown; the owner is blocked in a read across the whole Shutdown and gets
+		// the client's octets afterwards; writes; closes
+		{"then-shutdown", []string{"S0", "C1", "J1", "Q1", "R1", "Y1", "o1", "D0", "Wdr.0.0", "Wsr.0", "i1", "u1", "y1"}},
+		// used before, across and after Shutdown; never closed by the owner within the scenario
+		{"used-throughout", []string{"S0", "C1", "J1", "Q1", "R1", "Y1", "o1", "i1", "u1", "o1", "D0", "Wdr.0.0", "Wsr.0", "i1", "o1", "u1"}},
+		// an ordinary handler in flight on another connection: Shutdown waits for that one only,
+		// the owner of the hijacked one reads during Shutdown
+		{"next-to-inflight", []string{"S0", "C1", "C2", "J1", "Q1", "Q2", "R1", "Y1", "o1", "D0", "i1", "u1", "R2", "Wdr.0.0", "Wsr.0", "o1", "i1", "y1"}},
+		// hijacked while Shutdown already waits for that handler
+		{"during-shutdown", []string{"S0", "C1", "J1", "Q1", "D0", "R1", "Y1", "o1", "Wdr.0.0", "Wsr.0", "i1", "y1"}},
+		// context expiry with an ordinary handler in flight
+		{"ctx-expiry", []string{"S0", "C1", "C2", "J1", "Q1", "Q2", "R1", "Y1", "o1", "K0", "k0", "i1", "R2", "Wsr.0", "o1", "i1", "y1"}},
+		// the second request on the connection hijacks
+		{"second-request", []string{"S0", "C1", "Q1", "R1", "J1", "Q1", "R1", "Y1", "o1", "D0", "Wdr.0.0", "Wsr.0", "i1", "y1"}},
+		// owner closes before Shutdown
+		{"closed-before-shutdown", []string{"S0", "C1", "C2", "J1", "Q1", "R1", "Y1", "u1", "y1", "Q2", "D0", "R2", "Wdr.0.0", "Wsr.0"}},
+		// two hijacked connections, idle third
+		{"two-hijacked", []string{"S0", "C1", "C2", "C3", "J1", "J2", "Q1", "Q2", "R2", "Y2", "o2", "R1", "Y1", "o1", "D0", "Wdr.0.0", "Wsr.0", "i1", "i2", "y1"}},
+		// the hijacking handler itself keeps running (and Shutdown waits for it); released, then owned
+		{"handler-stays", []string{"S0", "C1", "j1", "Q1", "r1", "h1", "D0", "g1", "Y1", "o1", "Wdr.0.0", "Wsr.0", "i1", "y1"}},
+		{"handler-stays-then-shutdown", []string{"S0", "C1", "j1", "Q1", "r1", "h1", "g1", "Y1", "o1", "D0", "Wdr.0.0", "Wsr.0", "i1"}},
+		// the listener is closed from outside / a fatal error ends the serve call, then Shutdown
+		{"self-end", []string{"S0", "C1", "J1", "Q1", "R1", "Y1", "o1", "f", "Wsr.1", "D0", "Wdr.0.0", "i1", "y1"}},
+		// hijack in the first life, the owner keeps the connection across the restart and the second life
+		{"across-restart", []string{"S0", "C1", "J1", "Q1", "R1", "Y1", "o1", "D0", "Wdr.0.0", "Wsr.0", "i1", "N", "S0", "C1", "Q1", "D0", "R1", "Wdr.0.0", "Wsr.0"}},
+	}
+	var out []holdCase
+	for _, b := range base {
+		out = append(out, b)
+		// the same over a TLS-style listener (the server sees wrappers)
+		out = append(out, holdCase{b.name + "-wrapped", append([]string{"A"}, b.plan...)})
 	}
 	return out
 }
@@ -1993,6 +2335,8 @@ func lifeBodies(mode string) map[string][]string {
 	}
 	if mode == "tcp" {
 		b["idleconn"] = []string{"S0", "C1", "C2", "D0", "Wdr.0.0", "Wsr.0"}
+		b["hijack"] = []string{"S0", "C1", "C2", "J1", "Q1", "Q2", "R1", "Y1", "o1", "D0", "R2", "Wdr.0.0", "Wsr.0", "i1"}
+		b["hijack-during"] = []string{"A", "S0", "C1", "J1", "Q1", "D0", "R1", "Y1", "o1", "Wdr.0.0", "Wsr.0", "i1", "y1"}
 		b["step-dl"] = []string{"S0", "C1", "Q1", "Hdl.1", "R1", "Gdl.1", "D0", "Wdr.0.0", "Wsr.0"}
 		b["step-ac"] = []string{"S0", "C2", "Q2", "Hac.1", "C1", "Gac.1", "D0", "R2", "Wdr.0.0", "Wsr.0"}
 	} else {
